@@ -1,7 +1,6 @@
 package props
 
 import (
-	"bytes"
 	"encoding/binary"
 	"encoding/json"
 	"fmt"
@@ -41,7 +40,8 @@ func decodeVia(entry string, frame []byte) (p mq.ControlPacket, err error, pan *
 	pan = guard.Watched(size, inflightRender(c), func() {
 		switch {
 		case entry == "ReadPacket":
-			p, err = mq.ReadPacket(bytes.NewReader(frame))
+			rd, _ := readerFor(frame)
+			p, err = mq.ReadPacket(rd)
 		case entry == "ReadPacket1":
 			steps := make([]guard.Step, len(frame))
 			for i := range steps {
